@@ -29,6 +29,9 @@ def run(ctx):
     lib_err.module_handlers(ctx, P, E)
     lib_gatefn.treeseq_init(ctx, P)
     lib_kind.takeset_atomic(ctx, P)
+    lib_gatefn.gate_dispatch(ctx, P)
+    lib_gatefn.gate_spec(ctx, P)
+    lib_gatefn.gate_loops(ctx, P)
     # an altered data region is rejected by the validity gate that tskit.load passes: its id guards must be exact
     gate = {f for f in P.tus["tables"].funcs if f.startswith("tsk_table_collection_check_")}
     seen = lib_guards.analyse(ctx, P, funcs=gate)
